@@ -48,7 +48,7 @@ func init() {
 	fw.Register(&fw.Check{
 		ID:   "C17",
 		Race: true,
-		Rule: "One case = one history: layout (plain file | symlink to a file in another directory | k8s AtomicWriter layout), decoder (json|yaml), 1..~14 steps over " +
+		Rule: "One case = one history: layout (plain file | symlink to a file in another directory | k8s AtomicWriter layout), decoder (json|yaml; in 30% of histories behind a harness decoder that drains its reader with io.Copy / io.WriterTo / io.ReaderAt instead of io.ReadAll), 1..~14 steps over " +
 			"{in-place truncate+rewrite in 1..6 pieces, in-place rewrite of the same byte length that restores the previous mtime or sets a fixed epoch mtime (cp -p / rsync --inplace -t; pwrite or O_TRUNC), write-temp+rename-over, k8s swap (with/without removing the old dir, file or link first), symlink swap (same/new dir), " +
 			"delete+recreate (in place or renamed in), identical bytes (in place and atomic), malformed or empty content (incl. well-formed content rejected by a text-unmarshalable field with an error wrapping fs.ErrNotExist), revert to the last good bytes, sync point, gate (watcher held between its read and its report/watch repair while 1-2 steps run)} " +
 			"with seeded pauses (none, yield, 20us..50ms) and a seeded delay table on the file.read hook. A history is distinct by (layout, decoder, step-kind sequence with identical/revert/malformed/piece-count/variant marks) " +
@@ -67,10 +67,10 @@ func init() {
 		MinCounters: map[string]map[string]int64{
 			"quick": {"final_valid_converged": 1200, "final_invalid_error_seen": 600, "identical_windows_judged": 500, "syncs_passed": 1800,
 				"release_checked": 3500, "hook_reads": 20000, "gates_held": 1500, "probe_selftest_ok": 300, "admissible_view_judged": 300, "fd_audits_ok": 3500,
-				"queue_overflow_confirmed": 1, "keep_mtime_same_length_rewrites": 800, "final_invalid_decoder_notexist_error_seen": 40},
+				"queue_overflow_confirmed": 1, "keep_mtime_same_length_rewrites": 800, "final_invalid_decoder_notexist_error_seen": 40, "histories_with_reader_style_decoder": 800},
 			"thorough": {"final_valid_converged": 20000, "final_invalid_error_seen": 10000, "identical_windows_judged": 9000, "syncs_passed": 30000,
 				"release_checked": 60000, "hook_reads": 300000, "gates_held": 25000, "probe_selftest_ok": 5000, "admissible_view_judged": 5000, "fd_audits_ok": 60000,
-				"queue_overflow_confirmed": 3, "keep_mtime_same_length_rewrites": 15000, "final_invalid_decoder_notexist_error_seen": 800},
+				"queue_overflow_confirmed": 3, "keep_mtime_same_length_rewrites": 15000, "final_invalid_decoder_notexist_error_seen": 800, "histories_with_reader_style_decoder": 15000},
 		},
 		Plan: func(tier string) fw.Plan {
 			if tier == "thorough" {
@@ -124,6 +124,10 @@ func runC17(w *fw.Worker) {
 	if got, want, ok := env.audit.check(); !ok && got > want {
 		w.Violation(w.N-1, "inotify-descriptor-leak", fmt.Sprintf("after all histories of the shard were cancelled and waited for, the process holds %d inotify descriptors, expected %d", got, want), nil)
 	}
+	w.Count("decoder_drained_reader_via:io.Copy", c17ReadViaCopy.Load())
+	w.Count("decoder_drained_reader_via:WriterTo", c17ReadViaWriterTo.Load())
+	w.Count("decoder_drained_reader_via:ReaderAt", c17ReadViaReaderAt.Load())
+	w.Count("decoder_drained_reader_via:ReadAll-fallback", c17ReadViaRead.Load())
 	if n := c17HookStray.Load(); n > 0 {
 		w.Count("hook_stray_calls", n)
 	}
@@ -314,7 +318,11 @@ func (r *c17Run) opClass() string {
 	if lo < 0 {
 		lo = 0
 	}
-	return r.h.Layout + ":" + strings.Join(r.executed[lo:], ">")
+	lay := r.h.Layout
+	if r.h.ReadMode != "" {
+		lay += "/" + r.h.ReadMode
+	}
+	return lay + ":" + strings.Join(r.executed[lo:], ">")
 }
 
 // postMortem runs only after a non-convergence verdict has been reached. It
@@ -558,7 +566,15 @@ func (r *c17Run) execute() {
 	c17HookTable.Store(fs.cfgPath, r.hook)
 	defer c17HookTable.Delete(fs.cfgPath)
 
-	ws, err := file.NewWatchingSource(fs.cfgPath, dec, file.WithLogger(r.hook))
+	// the watcher may get a decoder that drains its reader differently; the
+	// reference above always uses the stock decoder on the bytes
+	wdec := dec
+	if h.ReadMode != "" {
+		wdec = &c17ReadDecoder{inner: dec, mode: h.ReadMode}
+		w.Count("histories_with_reader_style_decoder", 1)
+		w.SetAdd("read_modes", h.ReadMode)
+	}
+	ws, err := file.NewWatchingSource(fs.cfgPath, wdec, file.WithLogger(r.hook))
 	if err != nil {
 		r.inconclusive = "NewWatchingSource: " + err.Error()
 		return
